@@ -380,6 +380,17 @@ def box_contract(kind, box, pts):
     rarr, ridx = struc.repeat_box(arr, amount=1)
     if not np.allclose(rarr.coord, rep, atol=1e-4) or ridx.tolist() != idx.tolist() or not np.allclose(rarr.box, b32):
         return "repeat_box(atoms) differs from repeat_box_coord(coord)"
+    # a stack: every model is repeated with its own box, as if it were alone
+    st = struc.AtomArrayStack(3, n)
+    st.coord = np.stack([f32, f32 + 1.5, f32[::-1] * 0.5])
+    st.box = np.stack([b32, b32 * 1.25, b32 * 0.75])
+    rst, sidx = struc.repeat_box(st, amount=1)
+    if rst.coord.shape != (3, 27 * n, 3) or sidx.tolist() != idx.tolist():
+        return f"repeat_box(stack): coordinates of shape {rst.coord.shape}"
+    for mdl in range(3):
+        alone, _ = struc.repeat_box(st[mdl], amount=1)
+        if not np.allclose(rst.coord[mdl], alone.coord, atol=1e-3) or not np.allclose(rst.box[mdl], alone.box):
+            return f"repeat_box(stack): model {mdl} differs from repeating that model alone"
     return None
 
 
